@@ -186,9 +186,29 @@ GoDecEv ==
                  ELSE IF ~GoSame(r.v, Ev.got) THEN "the value stored differs from what the decoding rules (GoDec.tla) say"
                  ELSE ""
 
+\* one Go value encoded by the embedded codec (C17): the bytes must be GoEnc!GoMarshal of the recorded value, for both
+\* settings of the HTML-escape switch, through MarshalIndent and through an Encoder
+GoEncEv ==
+  /\ Ev.ev = "goenc"
+  /\ UNCHANGED <<doc, opts, copied>> /\ status' = "stopped"
+  /\ LET g == Ev.g IN
+     bad' = IF Ev.panic THEN "the codec panicked"
+            ELSE IF GoUnspecified(g) THEN (IF PrintT("GOENC-DC") THEN "" ELSE "")
+            ELSE IF GoFails(g) THEN (IF Ev.esc_ok \/ Ev.raw_ok \/ Ev.indent_ok \/ Ev.stream_ok
+                                     THEN "Marshal succeeds although a MarshalJSON method fails or returns ill-formed text" ELSE "")
+            ELSE LET be == GoMarshal(g, TRUE)
+                     br == GoMarshal(g, FALSE)
+                     ind == Indent(be, <<62>>, <<32, 32>>) IN
+                 IF ~Ev.esc_ok \/ Ev.esc # be THEN "MarshalEscaped(v, true) differs from the encoding rules (GoEnc.tla)"
+                 ELSE IF ~Ev.raw_ok \/ Ev.raw # br THEN "MarshalEscaped(v, false) differs from the encoding rules (GoEnc.tla)"
+                 ELSE IF Ev.indent_ok # ind.ok THEN "MarshalIndent succeeds exactly when the encoding is well-formed: violated"
+                 ELSE IF ind.ok /\ Ev.indent # ind.out THEN "MarshalIndent output is not Indent of the encoding"
+                 ELSE IF ~Ev.stream_ok \/ Ev.stream # br \o <<10>> THEN "Encoder.Encode output is not the encoding followed by a newline"
+                 ELSE ""
+
 TNext == /\ l <= Len(Trace) /\ bad = ""
          /\ l' = l + 1
-         /\ (Reset \/ Op \/ MergeEv \/ CreateEv \/ ComposeEv \/ EqualEv \/ ScanEv \/ GoDecEv)
+         /\ (Reset \/ Op \/ MergeEv \/ CreateEv \/ ComposeEv \/ EqualEv \/ ScanEv \/ GoDecEv \/ GoEncEv)
 TSpec == TInit /\ [][TNext]_tvars
 
 NoMismatch == bad = ""
